@@ -57,7 +57,7 @@ struct VGroupP : Profile {
     std::vector<std::string> required_probes() const override
     {
         return {"members>64", "name>64", "duplicate-member", "insert-vgroup", "insert-vdata", "delete-member", "delete-vgroup",
-                "delete-vdata", "two-handles-same-vgroup", "restart", "lone-checked", "rename-shrink-by-1"};
+                "delete-vdata", "two-handles-same-vgroup", "restart", "lone-checked", "rename-shrink-by-1", "insert-foreign-refused"};
     }
 
     Plan generate(Rng &rng, bool thorough, uint64_t) override
@@ -108,8 +108,8 @@ struct VGroupP : Profile {
                 case 5: // kind: 0 plain tag/ref, 1 a vdata, 2 a vgroup, 3 duplicate of an existing member
                     p.ops.push_back(mkop(c, names[k], {sl, (int64_t)r.below(4), (int64_t)r.below(6), (int64_t)r.below(8)}));
                     break;
-                case 6:
-                    p.ops.push_back(mkop(c, names[k], {sl, (int64_t)r.below(2), (int64_t)r.below(6)}));
+                case 6: // what: 0 a vdata, 1 a vgroup, 2 handles of objects of ANOTHER file (must be refused)
+                    p.ops.push_back(mkop(c, names[k], {sl, (int64_t)r.below(3), (int64_t)r.below(6)}));
                     break;
                 case 7:
                     p.ops.push_back(mkop(c, names[k], {sl, r.chance(0.15) ? -1 : (int64_t)r.below(200)}));
@@ -491,7 +491,37 @@ struct VGroupP : Profile {
                 MVg &m = s.g[sl->g];
                 if (!sl->wr)
                     done = false;
-                else if (modn(o.arg(1), 2) == 0) { // a vdata, by handle
+                else if (modn(o.arg(1), 3) == 2) {
+                    // handles of a vgroup and a vdata that live in another file: a vgroup only has members of its own file
+                    const char *other = "/sim/vg_other.hdf";
+                    bool        have  = simfs::disk().count(other) != 0;
+                    int32       of    = Hopen(other, have ? DFACC_RDWR : DFACC_CREATE, 0);
+                    if (of == FAIL || Vstart(of) == FAIL)
+                        ctx.fail("open-failed", "open-failed:other", "opening the second file failed");
+                    if (!have) {
+                        // same reference numbers as objects of the main file are likely: both files count from 1
+                        for (int q = 0; q < 3; q++) {
+                            int32 ovg = Vattach(of, -1, "w");
+                            int32 v1  = q;
+                            if (ovg == FAIL || Vsetname(ovg, strf("other_vg%d", q).c_str()) == FAIL || Vdetach(ovg) == FAIL ||
+                                VHstoredata(of, "x", (const uint8 *)&v1, 1, DFNT_INT32, strf("other_vs%d", q).c_str(), "c") == FAIL)
+                                ctx.fail("setup-failed", "setup-failed:other", "populating the second file failed");
+                        }
+                    }
+                    int   q   = modn(o.arg(2), 3);
+                    int32 ovg = Vattach(of, Vfind(of, strf("other_vg%d", q).c_str()), "r");
+                    int32 ovs = VSattach(of, VSfind(of, strf("other_vs%d", q).c_str()), "r");
+                    if (ovg == FAIL || ovs == FAIL)
+                        ctx.fail("attach-refused", "attach-refused:other", "attaching objects of the second file failed");
+                    if (Vinsert(sl->vkey, ovg) != FAIL)
+                        ctx.fail("insert-mismatch", "insert-mismatch:foreign-vgroup", "Vinsert accepts the handle of a vgroup of another file");
+                    if (Vinsert(sl->vkey, ovs) != FAIL)
+                        ctx.fail("insert-mismatch", "insert-mismatch:foreign-vdata", "Vinsert accepts the handle of a vdata of another file");
+                    if (Vdetach(ovg) == FAIL || VSdetach(ovs) == FAIL || Vend(of) == FAIL || Hclose(of) == FAIL)
+                        ctx.fail("close-failed", "close-failed:other", "closing the second file failed");
+                    ctx.probe("insert-foreign-refused");
+                }
+                else if (modn(o.arg(1), 3) == 0) { // a vdata, by handle
                     MVs &v = s.v[modn(o.arg(2), NVS)];
                     if (!v.exists)
                         done = false;
